@@ -61,8 +61,10 @@ class InstanceGenerator(abc.ABC):
             num_jobs = (num_jobs, num_jobs)
         if isinstance(num_machines, int):
             num_machines = (num_machines, num_machines)
-        if seed is not None:
-            random.seed(seed)
+        # A private random number generator: the same stream as
+        # ``random.seed(seed)`` would give, but not shared with other
+        # generators or with user code.
+        self.rng = random.Random(seed)
 
         self.num_jobs_range = num_jobs
         self.num_machines_range = num_machines
